@@ -49,12 +49,31 @@ func streamQuery(ctx context.Context, src string, readers func(*zed.Context) []z
 	select {
 	case r := <-ch:
 		return r.vals, r.err
-	case <-time.After(20 * time.Second):
+	case <-time.After(hangLimit(ctx)):
+		cancel()
+		if !hangConfirming(ctx) {
+			// Not believed yet: a loaded machine can be this slow.  Run it once more on
+			// its own with six times the limit; only a second timeout is a hang.
+			return streamQuery(context.WithValue(ctx, hangKey{}, true), src, readers, optimize, sortKey)
+		}
 		return nil, errHang
 	}
 }
 
-var errHang = fmt.Errorf("HANG: query did not finish within 20s")
+var errHang = fmt.Errorf("HANG: query did not finish within 20s, nor within 120s when run again")
+
+type hangKey struct{}
+
+func hangConfirming(ctx context.Context) bool { return ctx.Value(hangKey{}) != nil }
+
+// hangLimit is the real-time limit after which a query is suspected to hang
+// (20 s), or believed to (another 120 s on the confirming run).
+func hangLimit(ctx context.Context) time.Duration {
+	if hangConfirming(ctx) {
+		return 120 * time.Second
+	}
+	return 20 * time.Second
+}
 
 func streamQuery1(ctx context.Context, src string, readers func(*zed.Context) []zio.Reader, optimize bool, sortKey *order.SortKey) (vals []string, err error) {
 	defer func() {
